@@ -23,8 +23,8 @@ Definition triple_mop (t : Z * Z * Z) : mop := let '(k, o, n) := t in mkMop (if 
 Definition triple_eqb (a b : Z * Z * Z) : bool :=
   let '(a1, a2, a3) := a in let '(b1, b2, b3) := b in (a1 =? b1) && (a2 =? b2) && (a3 =? b3).
 
-Definition status_of (r : res patchdoc) : Z :=
-  match r with Panic _ => 599 | _ => handler_status r end.
+Definition status_of (old new : elem) (r : res patchdoc) : Z :=
+  match r with Panic _ => 599 | _ => mpdDiff_status old new end.
 
 (** the Coq applier on the observed operations, compared canonically with the new document *)
 Definition applied (ops : list op) (old new : elem) : bool :=
@@ -43,7 +43,7 @@ Definition case_ok (c : c11case) : bool :=
     end
   | CTree _ old new o =>
     let r := mpdDiff old new in
-    (status_of r =? to_status o) &&
+    (status_of old new r =? to_status o) &&
     match r with
     | Ok p =>
       seqb (p_mpdId p) (to_mpdId o) && seqb (p_orig p) (to_orig o) && seqb (p_new p) (to_new o) &&
@@ -79,6 +79,6 @@ Definition model_view (c : c11case) : Z * Z * Z * bool * list (Z * Z * Z) :=
     let r := mpdDiff old new in
     match r with
     | Ok p => (200, lenZ (p_ops p), first_diff op_eqb (p_ops p) (to_ops o) 0, applied (to_ops o) old new, [])
-    | _ => (status_of r, 0, 0, false, [])
+    | _ => (status_of old new r, 0, 0, false, [])
     end
   end.
